@@ -68,7 +68,7 @@ def run_drivers(files, flag_args, drivers=("inline", "pytest"), deadline=None):
         with open(os.path.join(d, "driver.py"), "w") as f:
             f.write(DRIVER_SCRIPT)
         p = subprocess.run([PY, os.path.join(d, "driver.py"), os.path.join(d, "spec.json"), os.path.join(d, "out.json")],
-                           cwd=d, env=clean_env(), capture_output=True, timeout=180)
+                           cwd=d, env=clean_env(), capture_output=True, timeout=600)
         try:
             with open(os.path.join(d, "out.json")) as f:
                 return json.load(f)
